@@ -194,6 +194,62 @@ def dom_schema():
     return _DOMSCH[0]
 
 
+def parse_with_live_rules(S, rnd, pool, doc):
+    """DOMParser whose rules hand the parser parts of LIVE documents, the documented way a
+    caller supplies ready-made content: getContent returns the content fragment of a node of
+    a live document, getAttrs returns the attrs dict of a live node, top_node / context point
+    into a live document.  The HTML is the serialised document with elements that trigger
+    those rules spliced in.  Returns the parsed document / slice (None if the parser raised)."""
+    import lxml.html
+    from prosemirror.model import DOMParser, DOMSerializer
+    from prosemirror.model.from_dom import ParseOptions, ParseRule
+
+    from . import c19
+
+    inl, blk, ats = [], [], []
+
+    def visit(nd, pos, par, idx):
+        if nd.is_text:
+            return
+        ats.append(nd.attrs)
+        if nd.is_textblock and nd.child_count:
+            inl.append(nd.content)
+        elif nd.child_count and not nd.inline_content:
+            blk.append(nd.content)
+
+    for x in pool:
+        x.descendants(visit)
+        blk.append(x.content)
+    pick = lambda xs: (lambda dom, *a: xs[int(dom.get("data-t")) % len(xs)])  # noqa: E731
+    extra = []
+    if inl:
+        extra.append({"tag": "p[data-t]", "node": "paragraph", "getContent": pick(inl)})
+        extra.append({"tag": "h6[data-t]", "node": "heading", "getAttrs": pick(ats), "getContent": pick(inl)})
+    extra.append({"tag": "blockquote[data-t]", "node": "blockquote", "getContent": pick(blk)})
+    if ats:
+        extra.append({"tag": "h5[data-t]", "node": "heading", "getAttrs": pick(ats)})
+    parser = DOMParser(S, [ParseRule.from_json(r) for r in extra] + DOMParser.schema_rules(S))
+    ser = DOMSerializer.from_schema(S)
+    parts = [str(ser.serialize_node(doc.child(j))) for j in range(doc.child_count)]
+    for _ in range(rnd.randint(1, 4)):
+        tag = rnd.choice(["p", "p", "h6", "blockquote", "h5"])
+        el = '<%s data-t="%d">%s</%s>' % (tag, rnd.randint(0, 999), rnd.choice(["", " ", "x "]), tag)
+        parts.insert(rnd.randint(0, len(parts)), el)
+    dom = lxml.html.fragment_fromstring("".join(parts), create_parent="div")
+    r = rnd.random()
+    n = doc.content.size
+    budget_ = 5000 * (sum(len(x) for x in parts) + 10) + 200000
+    try:
+        if r < 0.5:
+            return c19.watch().run(budget_, parser.parse, dom)
+        if r < 0.7:
+            return c19.watch().run(budget_, parser.parse, dom, ParseOptions(top_node=doc, preserve_whitespace=rnd.choice([None, True, "full"])))
+        ctxpos = doc.resolve(rnd.randint(0, n))
+        return c19.watch().run(budget_, parser.parse_slice, dom, ParseOptions(context=ctxpos, preserve_whitespace=rnd.choice([None, True])))
+    except BaseException:
+        return None
+
+
 def case(ctx, rnd, i):
     from prosemirror.model import Fragment, Mark, Node, Slice
     from prosemirror.transform import Mapping, Step, StepMap, Transform
@@ -349,6 +405,14 @@ def case(ctx, rnd, i):
                         live.add(mp.map_result(q, 1), "Mapping.map_result")
                         m2.map(q), inv.map(q, -1), sl.map(q)
                     live.add_all(list(m2.maps[:3]), "Mapping.copy")
+                elif sch.id in ("basic", "list") and rnd.random() < 0.5:
+                    name = "dom-live-rules"
+                    nd = parse_with_live_rules(S, rnd, pool, doc)
+                    ctx.count("dom_live_rules_" + ("raised" if nd is None else "parsed"))
+                    if nd is None:
+                        outcome = "from_html-raised"
+                    else:
+                        live.add(nd, name)
                 elif sch.id in ("basic", "list"):
                     name = "dom"
                     from prosemirror.model import DOMSerializer
